@@ -85,6 +85,7 @@ inductive Sys where
   | lstat (p : Str)
   | stat (p : Str)
   | mkdir (p : Str) (perm : Nat)
+  | mkdirAll (p : Str) (perm : Nat)
   | createWrite (p : Str) (perm : Nat) (data : List UInt8)
   | readFile (p : Str)
   | link (old new : Str)
@@ -138,9 +139,11 @@ def inheritFrom (fs : FS) (parent : Path) (isDir : Bool) (perm : Nat) : Nat × N
   | some pn => if pn.perm &&& 0o2000 ≠ 0 then (pn.gid, if isDir then perm ||| 0o2000 else perm) else (0, perm)
   | none => (0, perm)
 
-/-- what a parent of `p` being a non-directory means for `os.RemoveAll` -/
+/-- what a parent of `p` being a non-directory means for `os.RemoveAll`: it opens the parent
+    directory of `p` (`splitPath`; for the cleaned paths the library passes this is `Dir(p)`) for
+    reading — an open of a fifo without a writer never returns -/
 def removeAllNotDir (w : World) (p : Str) : Res :=
-  match resolve w (splitLast (stripTrailingSlashes p)).1 true with
+  match resolve w (dir p) true with
   | .ok q =>
     match w.fs.get q with
     | some n => if n.kind == .fifo then .blocked else .err .ENOTDIR
@@ -159,33 +162,57 @@ def listFrom (fs : FS) : Nat → Nat → Path → Str → List (Str × Kind × N
         (s, n.kind, depth) :: (sortStrs (fs.children p)).flatMap (fun c => listFrom fs fuel (depth + 1) (p ++ [c]) (join s c))
       else [(s, n.kind, depth)]
 
-def step (w : World) : Sys → Res × World
-  | .lstat p =>
-    match resolve w p false with
-    | .err e => (.err e, w)
-    | .ok q => match w.fs.lookup q with
-      | none => (.err .ENOENT, w)
-      | some i => match w.fs.inode i with
-        | none => (.err .ENOENT, w)
-        | some n => (.stat (statOf w.fs i n), w)
-  | .stat p =>
-    match resolve w p true with
-    | .err e => (.err e, w)
-    | .ok q => match w.fs.lookup q with
-      | none => (.err .ENOENT, w)
-      | some i => match w.fs.inode i with
-        | none => (.err .ENOENT, w)
-        | some n => (.stat (statOf w.fs i n), w)
-  | .mkdir p perm =>
-    match resolveC w p with
-    | .err e => (.err e, w)
-    | .ok q =>
-      if (w.fs.lookup q).isSome then (.err .EEXIST, w)
-      else if !w.fs.isDir q.dropLast then (.err .ENOENT, w)
+def isErr : Res → Bool
+  | .err _ => true
+  | .blocked => true
+  | _ => false
+
+/-- lstat / stat -/
+def statRes (w : World) (p : Str) (follow : Bool) : Res :=
+  match resolve w p follow with
+  | .err e => .err e
+  | .ok q => match w.fs.lookup q with
+    | none => .err .ENOENT
+    | some i => match w.fs.inode i with
+      | none => .err .ENOENT
+      | some n => .stat (statOf w.fs i n)
+
+/-- mkdir(2) -/
+def mkdirOne (w : World) (p : Str) (perm : Nat) : Res × World :=
+  match resolveC w p with
+  | .err e => (.err e, w)
+  | .ok q =>
+    if (w.fs.lookup q).isSome then (.err .EEXIST, w)
+    else if !w.fs.isDir q.dropLast then (.err .ENOENT, w)
+    else
+      let pm := perm &&& 0o1777 &&& (0o7777 - w.umask)
+      let (g, pm') := inheritFrom w.fs q.dropLast true pm
+      (.ok, { w with fs := w.fs.create q ({ kind := .dir, perm := pm', uid := 0, gid := g, mtime := none } : Inode) })
+
+/-- `os.MkdirAll(path, perm)` (Go standard library): Stat; on failure make the parent first, then
+    Mkdir; a Mkdir error is forgiven when Lstat then shows a directory.  `fuel` ≥ number of path bytes. -/
+def mkdirAllK : Nat → World → Str → Nat → Res × World
+  | 0, w, _, _ => (.err .ELOOP, w)
+  | fuel+1, w, path, perm =>
+    match statRes w path true with
+    | .stat s => if s.kind == .dir then (.ok, w) else (.err .ENOTDIR, w)
+    | _ =>
+      let parent := (splitLast (stripTrailingSlashes path)).1
+      let pr : Res × World := if parent.length > 0 ∧ parent ≠ path then mkdirAllK fuel w parent perm else (.ok, w)
+      if isErr pr.1 then pr
       else
-        let pm := perm &&& 0o1777 &&& (0o7777 - w.umask)
-        let (g, pm') := inheritFrom w.fs q.dropLast true pm
-        (.ok, { w with fs := w.fs.create q ({ kind := .dir, perm := pm', uid := 0, gid := g, mtime := none } : Inode) })
+        let m := mkdirOne pr.2 path perm
+        if isErr m.1 then
+          match statRes m.2 path false with
+          | .stat s => if s.kind == .dir then (.ok, m.2) else m
+          | _ => m
+        else (.ok, m.2)
+
+def step (w : World) : Sys → Res × World
+  | .lstat p => (statRes w p false, w)
+  | .stat p => (statRes w p true, w)
+  | .mkdir p perm => mkdirOne w p perm
+  | .mkdirAll p perm => mkdirAllK (p.length + 1) w p perm
   | .createWrite p perm data =>
     match resolve w p true with
     | .err e => (.err e, w)
